@@ -71,7 +71,7 @@ class C19(core.Check):
     quick_n = 500
     thorough_n = 8000
     rule = ("case = (client on https?, queued requests [(method incl. HEAD, unique path, body, query-argument dict)], servers [(port, tls?, script of responses (status incl. 204/304/102 with Content-Length or Transfer-Encoding, 300/301/302/303/307 with Location (own query string) to "
-            "any server incl. unknown port and scheme change, body, framing length|chunked|until-close|truncated, delay cycles, split points, close-after))], how many requests are queued late). "
+            "any server incl. unknown port and scheme change, body, framing length|chunked|until-close|truncated, delay cycles, split points, close-after, number of interim 100 Continue responses sent first 0|1|2|3|10))], how many requests are queued late). "
             "non-trivial = at least 2 requests and (a redirect, a close, a delay or a split); distinct by request line")
     trusted_base = ["correspondence harness/props/C19.py: compiled model driver vs hio.core.http.clienting.Client over scripted connectors (harness/areas/httpflow.py World)",
                     "translator harness/extract/httpflow.py (redirect status set probed from Respondent.parseHead over every 3-digit code)",
@@ -109,6 +109,9 @@ class C19(core.Check):
              [(b"GET", b"", b"", None), (b"POST", b"/s1", b"p", [(b"n", b"1")]), (b"GET", b"", b"", [])]),
             (False, [(b"GET", "/q0/\u00e9 x".encode("utf-8"), b"", [(b"a", b"1")])], [(8101, 0, [red(0, 8101, b"/r0%20y?b=2"), ok(b"one"), ok(b"two"), ok(b"three")])], 0,
              [(b"GET", b"", b"", None), (b"PUT", b"", b"zz", [(b"c", b"3")])]),
+            # the exchange is complete; with the client idle the server sends an unsolicited 408 and closes; then more requests, after reopen() and without
+            (False, [(b"GET", b"/q0", b"", [])], [(8101, 0, [ok(b"one", 4), ok(b"two"), ok(b"three", 1)])], 0, [(b"GET", b"/s0", b"", []), (b"POST", b"/s1", b"b", [])], True),
+            (False, [(b"GET", b"/q0", b"", []), (b"PUT", b"/q1", b"x", [])], [(8101, 0, [ok(b"one"), ok(b"two", 4), ok(b"three")])], 1, [(b"GET", b"/s0", b"", [])], False),
             # after a refused (https -> http) or unusable (no Location) redirect the queue goes on; later answers, also 2xx WITH a Location header, are plain answers
             (True, R, [(8101, 1, [red(0, 8102, b"/r0"), ok(b"two"), (201, (1, 8101, b"/made"), b"three", 0, 0, [], False)]), (8102, 0, [ok(b"ONE")])], 0),
             (False, R, [(8101, 0, [(302, None, b"", 0, 0, [], False), (201, (0, 8101, b"/made"), b"two", 1, 0, [], False), ok(b"three")])], 1),
@@ -123,6 +126,10 @@ class C19(core.Check):
              [(8101, 0, [(204, None, b"xx", 0, 1, [9], False), (102, None, b"yyy", 3, 0, [], False), ok(b"z")])], 0),
             (False, [(b"HEAD", b"/q0", b""), (b"GET", b"/q1", b"")], [(8101, 0, [ok(b"entity", 1), ok(b"two")])], 0),     # C19-K2 regression (fixed 3095720)
             (False, [(b"GET", b"/q0", b""), (b"GET", b"/q1", b"")], [(8101, 0, [(304, None, b"ent", 1, 0, [], False), ok(b"two", 1)])], 0),
+            # interim 100 Continue responses before the final one: none, one, two, three, ten; in one read and piecewise; before a redirect and its landing
+            (False, R, [(8101, 0, [(200, None, b"one", 0, 0, [], False, 1), (200, None, b"two", 1, 0, [], False, 2), (200, None, b"three", 0, 0, [], False, 3)])], 0),
+            (False, R, [(8101, 0, [(200, None, b"one", 0, 1, [10, 25, 26, 40, 51], False, 10), (302, (0, 8101, b"/r0"), b"", 0, 0, [30], False, 2),
+                                   (200, None, b"landed", 0, 0, [], False, 2), (404, None, b"three", 1, 0, [27], True, 3)])], 1),
             # redirected HEAD (fixed 041b28b): the hop's response carries the entity length and no body
             (False, [(b"HEAD", b"/q0", b"", []), (b"GET", b"/q1", b"", [])],
              [(8101, 0, [(302, (0, 8101, b"/r0"), b"", 0, 0, [], False), ok(b"entity"), ok(b"two")])], 0),
@@ -179,6 +186,7 @@ class C19(core.Check):
             predir = rng.choice([0.0, 0.15, 0.3, 0.6])
             ptrunc = rng.choice([0.0, 0.0, 0.0, 0.05])
             pnobody = rng.choice([0.0, 0.1, 0.3])
+            p100 = rng.choice([0.0, 0.0, 0.15, 0.4])
             for p in ports:
                 script = []
                 for _ in range(rng.choice([0, 2, 4, 6, 9])):
@@ -206,7 +214,13 @@ class C19(core.Check):
                     fr = 3 if rng.random() < ptrunc else rng.choice([0, 0, 0, 1, 1, 2] if rng.random() < 0.5 else [0, 0, 0, 1])
                     delay = rng.choice([0, 0, 0, 1, 2, 5])
                     cuts = sorted(rng.randrange(1, 120) for _ in range(rng.choice([0, 0, 1, 2, 4])))
-                    script.append((status, loc, self._body(rng), fr, delay, cuts, rng.random() < pclose))
+                    resp = (status, loc, self._body(rng), fr, delay, cuts, rng.random() < pclose)
+                    if rng.random() < p100:
+                        # interim 100 Continue responses (0, 1, several, many) before the final one: in the same read, or piecewise with the cuts
+                        resp += (rng.choice([1, 1, 2, 2, 3, 10]),)
+                        if rng.random() < 0.5:
+                            resp = resp[:5] + (sorted(set(list(cuts) + [rng.choice([1, 12, 25, 26, 30, 50, 51, 60])])),) + resp[6:]
+                    script.append(resp)
                 servers.append((p, int(tls[p]), script))
             late = 0 if rng.random() < 0.7 else rng.randrange(1, m + 1)
             if rng.random() < 0.3:
@@ -217,7 +231,14 @@ class C19(core.Check):
                     path = b"" if rng.random() < 0.5 else b"/s%d" % k + rng.choice([b"", b"/a b", b"/50%"])
                     qa = None if rng.random() < 0.4 else [(a.encode("utf-8"), qtext().encode("utf-8")) for a in rng.sample(keys, rng.choice([0, 1, 2]))]
                     second.append((method, path, b"" if rng.random() < 0.5 else self._body(rng), qa))
-                yield (secure, reqs, servers, late, second)
+                if nserv == 1 and predir == 0.0 and len(servers[0][2]) >= m and rng.random() < 0.5:
+                    # the answer to the LAST request of the first run is complete; later, with the client idle, the server says 408 on its own and closes
+                    sc = list(servers[0][2])
+                    st, loc, body, fr, delay, cuts, cl = sc[m - 1][:7]
+                    if fr in (0, 1) and st not in (204, 304, 102):
+                        sc[m - 1] = (st, loc, body, 4, delay, cuts, cl) + tuple(sc[m - 1][7:])
+                        servers = [(servers[0][0], servers[0][1], sc)]
+                yield (secure, reqs, servers, late, second, rng.random() < 0.7)       # last: reopen() before the second run, or go on as it is
                 continue
             if tier == "thorough" and not secure and rng.random() < 0.03:
                 yield ("loop", (secure, reqs, servers, late))      # the same kind of case over real loopback sockets (when it is plain http throughout)
@@ -235,9 +256,10 @@ class C19(core.Check):
             path, q = _tp(l[2])
             return (bool(l[0]), l[1], path, q)
         return ("c19", bool(secure), servers[0][0], [(r[0], r[1], r[2], _qa(r)) for r in reqs],
-                [(port, [(st, loc(l), body, fr, bool(fr in (2, 3) or cl))
-                         for st, l, body, fr, delay, cuts, cl in script]) for port, sec, script in servers],
-                [(r[0], r[1] or None, r[2], None if (len(r) > 3 and r[3] is None) else _qa(r)) for r in _second(case)])
+                [(port, [(st, loc(l), body, 0 if fr == 4 else fr, bool(fr in (2, 3) or cl), fr == 4)      # 4 = complete response; unsolicited 408 + close if the client is idle afterwards
+                         for st, l, body, fr, delay, cuts, cl in (r[:7] for r in script)]) for port, sec, script in servers],
+                [(r[0], r[1] or None, r[2], None if (len(r) > 3 and r[3] is None) else _qa(r)) for r in _second(case)],
+                bool(case[5]) if len(case) > 5 else True)
 
     # ------------------------------------------------------------------ real code
     @staticmethod
@@ -423,19 +445,23 @@ class C19(core.Check):
         mx = max([len(e[8]) for e in ents], default=0)
         f.append(f"max-history={min(mx, 4)}")
         for s in served:
-            f.append("served:" + ("redirect" if s[0] in REDIRECTS and s[1] else "final") + ":" + ["length", "chunked", "until-close", "truncated"][s[3]] + (":close" if s[4] else ""))
+            f.append("served:" + ("redirect" if s[0] in REDIRECTS and s[1] else "final") + ":" + ["length", "chunked", "until-close", "truncated", "length-then-unsolicited-408"][s[3]] + (":close" if s[4] else ""))
+        for _, _, sc in servers:
+            for r in sc:
+                if len(r) > 7 and r[7]:
+                    f.append("interim-100-continue=" + ("1" if r[7] == 1 else ("2-3" if r[7] <= 3 else "many")) + (":piecewise" if r[5] else ":one-read"))
         if len({w[0] for w in wire}) > 1:
             f.append("multi-server")
         for w, sv in zip(wire, served):
             if hf.c19_bodiless(w[2], sv[0]):
-                f.append("bodiless:" + ("HEAD" if w[2] == b"HEAD" else str(sv[0])) + ":" + ["length", "chunked", "until-close", "truncated"][sv[3]] + (":entity" if sv[2] else ""))
+                f.append("bodiless:" + ("HEAD" if w[2] == b"HEAD" else str(sv[0])) + ":" + ["length", "chunked", "until-close", "truncated", "length-then-unsolicited-408"][sv[3]] + (":entity" if sv[2] else ""))
             if sv[0] in REDIRECTS and sv[1] and b"?" in sv[1][2]:
                 f.append("location:with-query" + (":request-had-args" if _tp(w[3])[1] else ""))
         if any(_qa(r) for r in reqs):
             f.append("requests-with-query-args")
         f.append(["containers:client-own", "containers:caller-owned-empty", "containers:caller-owned-prefilled-shared"][cmode])
         if len(case) > 4:
-            f.append("second-run-after-reopen" + (":stored-path-reused" if any(not r[1] for r in case[4]) else ""))
+            f.append(("second-run-after-reopen" if (len(case) < 6 or case[5]) else "second-run-on-same-connection") + (":stored-path-reused" if any(not r[1] for r in case[4]) else ""))
         if any(b" " in r[1] or b"%" in r[1] or any(c > 127 for c in r[1]) for r in reqs):
             f.append("path:quote-alters-it")
         return f
@@ -447,12 +473,13 @@ class C19(core.Check):
             return
         if len(case) > 4:
             sec2 = list(case[4])
+            tail = tuple(case[5:])
             yield tuple(case[:4])
             for i in range(len(sec2)):
                 if len(sec2) > 1:
-                    yield tuple(case[:4]) + (sec2[:i] + sec2[i + 1:],)
+                    yield tuple(case[:4]) + (sec2[:i] + sec2[i + 1:],) + tail
             for c in self.shrink(tuple(case[:4])):
-                yield tuple(c) + (sec2,)
+                yield tuple(c) + (sec2,) + tail
             return
         secure, reqs, servers, late = case[:4]
         if late:
@@ -463,11 +490,16 @@ class C19(core.Check):
             for j in range(len(script)):
                 yield (secure, reqs, servers[:i] + [(port, sec, script[:j] + script[j + 1:])] + servers[i + 1:], late)
             for j, r in enumerate(script):
-                st, loc, body, fr, delay, cuts, cl = r
+                st, loc, body, fr, delay, cuts, cl = r[:7]
+                x = tuple(r[7:])
+                if x and x[0]:
+                    yield (secure, reqs, servers[:i] + [(port, sec, script[:j] + [(st, loc, body, fr, delay, cuts, cl)] + script[j + 1:])] + servers[i + 1:], late)
+                    if x[0] > 2:
+                        yield (secure, reqs, servers[:i] + [(port, sec, script[:j] + [(st, loc, body, fr, delay, cuts, cl, 2)] + script[j + 1:])] + servers[i + 1:], late)
                 if delay or cuts:
-                    yield (secure, reqs, servers[:i] + [(port, sec, script[:j] + [(st, loc, body, fr, 0, [], cl)] + script[j + 1:])] + servers[i + 1:], late)
+                    yield (secure, reqs, servers[:i] + [(port, sec, script[:j] + [(st, loc, body, fr, 0, [], cl) + x] + script[j + 1:])] + servers[i + 1:], late)
                 if len(body) > 1:
-                    yield (secure, reqs, servers[:i] + [(port, sec, script[:j] + [(st, loc, body[:1], fr, delay, cuts, cl)] + script[j + 1:])] + servers[i + 1:], late)
+                    yield (secure, reqs, servers[:i] + [(port, sec, script[:j] + [(st, loc, body[:1], fr, delay, cuts, cl) + x] + script[j + 1:])] + servers[i + 1:], late)
         for k, r in enumerate(reqs):
             m, p, b = r[:3]
             if b:
